@@ -35,7 +35,12 @@ impl BigInt
 
     pub fn from_bytes_be(bytes: &[u8]) -> BigInt
     {
-        let bigint = num_bigint::BigInt::from_signed_bytes_be(&bytes);
+        // The bytes are a bit pattern of known size, not a
+        // two's-complement number: a leading 1 bit is no sign
+        let bigint = num_bigint::BigInt::from_bytes_be(
+            num_bigint::Sign::Plus,
+            &bytes);
+
         BigInt {
             bigint,
             size: Some(bytes.len() * 8),
